@@ -11,6 +11,10 @@ func specLexWF(p *_parser) bool {
 	if p.chr == -1 {
 		return true
 	}
-	// a real character occupies at least one byte
-	return p.chrOffset < p.offset
+	// a real character occupies at least one byte, one above the BMP four, and an ASCII one is the
+	// single byte of the text it stands at
+	if p.chr < -1 || p.chrOffset >= p.offset || (p.chr > 0xFFFF && p.offset-p.chrOffset != 4) {
+		return false
+	}
+	return p.chr >= 0x80 || (p.offset == p.chrOffset+1 && rune(p.str[p.chrOffset]) == p.chr)
 }
